@@ -86,6 +86,8 @@ def failure_scenarios():
     sc.append(('ts protocol mismatch', dict(opts_by_ep={'A': {'ip_proto': 'tcp'}, 'B': {'ip_proto': 'udp'}})))
     sc.append(('invalid ke', dict(opts_by_ep={'A': {'ike_dh': ['ecp256', 'ecp384'], 'child_dh': ['ecp256', 'ecp384']}, 'B': {'ike_dh': ['ecp384', 'ecp256'], 'child_dh': ['ecp384', 'ecp256']}})))
     sc.append(('kernel refusal', dict(refuse=True)))
+    sc.append(('kernel refusal at the initiator', dict(refuse='A')))
+    sc.append(('kernel refusal of a delete', dict(refuse='A', refuse_kind='DELSA')))
     sc.append(('plain', dict()))
     return sc
 
@@ -100,7 +102,8 @@ def run_failure(name, spec, seed, keep_debug=False):
         for e in w.endpoints:
             w.start(e)
     if spec.get('refuse'):
-        w.kernel['B'].refuse = lambda idx, req: 17 if req['kind'] == 'NEWSA' else 0
+        rk = spec.get('refuse_kind', 'NEWSA')
+        w.kernel[spec['refuse'] if spec['refuse'] in ('A', 'B') else 'B'].refuse = lambda idx, req: 17 if req['kind'] == rk else 0
     try:
         log = w.establish('A')
         # a few follow-up exchanges where possible: new child, rekeys, delete
@@ -134,6 +137,27 @@ def run_failure(name, spec, seed, keep_debug=False):
     return w
 
 
+def log_sites():
+    """Every statement of the implementation that logs at INFO level or above: (file, first line, last line, level)."""
+    import ast
+    import glob
+    import os
+    out = []
+    for path in sorted(glob.glob(os.path.join(common.REPO, '*.py'))):
+        name = os.path.basename(path)
+        if name.startswith('test_') or name in ('setup.py',):
+            continue
+        tree = ast.parse(open(path).read())
+        for node in ast.walk(tree):
+            if isinstance(node, ast.Call) and isinstance(node.func, ast.Attribute):
+                a = node.func.attr
+                base = node.func.value
+                if (isinstance(base, ast.Name) and base.id == 'logging' and a in ('info', 'warning', 'error', 'critical', 'exception')) or \
+                        (a in ('log_info', 'log_warning', 'log_error') and isinstance(base, ast.Name) and base.id == 'self'):
+                    out.append((name, node.lineno, node.end_lineno, a.replace('log_', '')))
+    return out
+
+
 def run(tier, replay=None):
     v = common.Verdict('C20', tier, 'exploration')
     rnd = random.Random(common.SEED)
@@ -150,11 +174,12 @@ def run(tier, replay=None):
         for kind, rec in hits:
             v.violation(f'{origin}: a log record at INFO level or above contains the {kind}', {'record': rec}, signature={'component': 'leak', 'secret': kind})
     # (1) histories generated from the protocol specification (all transitions of small scenarios incl. the adversary and the retries)
-    for sc in (('init', 'adv_init') if tier == 'quick' else ('init', 'adv_init', 'adv', 'init_ke', 'init_cookie', 'estab_pfs', 'estab_rekey_ke')):
+    for sc in (('init', 'adv_init', 'init_cookie', 'estab') if tier == 'quick' else ('init', 'adv_init', 'adv', 'init_ke', 'init_cookie', 'estab_pfs', 'estab_rekey_ke')):
         g = ikemodel.dump_graph(sc)
         paths = g.behaviours()
-        if len(paths) > (250 if tier == 'quick' else 4000):
-            paths = rnd.sample(paths, 250 if tier == 'quick' else 4000)
+        cap = (250 if sc in ('init', 'adv_init') else 120) if tier == 'quick' else 4000
+        if len(paths) > cap:
+            paths = rnd.sample(paths, cap)
         for p in paths:
             steps = [(g.edges[i][1], g.edges[i][2], g.states[g.edges[i][3]]) for i in p]
             wd_prf = wd.World.__init__.__defaults__
@@ -181,6 +206,11 @@ def run(tier, replay=None):
     dbg_hits, ns, _ = scan(w, [(10, t, None, 0) for t in w.log_debug] + list(w.log_info))
     if len(dbg_hits) < 5:
         raise common.MachineryError(f'positive control failed: only {len(dbg_hits)} of {ns} secrets visible in a verbose (DEBUG) run - the detector does not see the material')
+    # which of the INFO+ logging statements of the implementation did these histories execute?  (a monitor only sees what runs)
+    sites = log_sites()
+    hit = [(f, a, b, lvl) for f, a, b, lvl in sites if any(ff == f and a <= ln <= b for ff, ln in wd.LOG_SITES)]
+    missed = [f'{f}:{a} ({lvl})' for f, a, b, lvl in sites if (f, a, b, lvl) not in hit]
+    v.coverage['log_statements'] = {'info_or_above_in_source': len(sites), 'executed_by_the_histories': len(hit), 'not_executed': missed}
     v.coverage.update({'evaluations': n_hist, 'distinct_nontrivial': n_hist, 'records_scanned': n_records, 'secrets_tracked_total': n_secrets, 'histories_by_origin': kinds,
                        'positive_control_debug_hits': len(dbg_hits),
                        'rule': 'histories: every transition of Ike.tla scenarios (handshakes with COOKIE / INVALID_KE retries, adversary injections), failure scenarios '
